@@ -28,6 +28,14 @@ def run(prog, rep, tier):
     if not fv.stitched:
         rep.rule("R13.0", "coroutine stitching").unanalysable("serve_inner coroutine could not be stitched", fv.loc())
         return
+    # the PDU loop may have been split into new async helpers (handle_pdu(..).await): their coroutine bodies are looked at
+    # as well; the body that holds the `match` on the PDU type is the one the per-arm rules read
+    helper_views = [view(prog, prog.body_key(h)) for h in prog.async_helpers.get(sk, [])]
+    main_fv = fv
+    for hv in helper_views:
+        if any(br.expr[0] == "discr" and br.adt and br.adt.endswith("rpki::Message") and len(br.cases) >= 3 for br in branches(hv).values()) \
+                and not any(br.expr[0] == "discr" and br.adt and br.adt.endswith("rpki::Message") and len(br.cases) >= 3 for br in branches(fv).values()):
+            fv = hv
     brs = branches(fv)
     r1 = rep.rule("R13.1", "snapshot install only in the snapshot phase; incremental changes only after it")
     r1.analysed(prog.name(sk))
@@ -153,9 +161,9 @@ def run(prog, rep, tier):
 
     r3 = rep.rule("R13.3", "every exit of the PDU loop removes the cache's VRPs; the session future is not dropped by a raced cancel")
     r3.analysed(prog.name(sk))
-    drops = [b for b, t in fv.calls(re.compile(r"rustybgpd::table_manager::TableManager::rpki_drop_all"))]
-    rets = fv.returns()
-    if drops and rets and all(fv.dominated_by_any(x, drops) for x in rets):
+    drops = [b for b, t in main_fv.calls(re.compile(r"rustybgpd::table_manager::TableManager::rpki_drop_all"))]
+    rets = main_fv.returns()
+    if drops and rets and all(main_fv.dominated_by_any(x, drops) for x in rets):
         r3.ok("serve_inner: every return is dominated by rpki_drop_all (%d return block(s))" % len(rets))
     else:
         r3.fail(prog.name(sk), "exit-without-drop", "serve_inner can return without rpki_drop_all: a dead session's VRPs stay installed", fv.loc())
@@ -204,14 +212,15 @@ def run(prog, rep, tier):
 
     r4 = rep.rule("R13.4", "one cache identity (the same Arc) on VRPs, reset and drop")
     r4.analysed(prog.name(sk))
-    rend = Renderer(fv, depth=12)
     n4 = 0
     for name, idx in (("rustybgp_table::Roa::new", 2), ("rustybgpd::table_manager::TableManager::rpki_reset", 1), ("rustybgpd::table_manager::TableManager::rpki_drop_all", 1)):
-        for bi, t in fv.calls(re.compile(re.escape(name))):
-            n4 += 1
-            e = rend.operand(t["args"][idx], 12)
-            if _var_or_field(e, "remote_addr"):
-                r4.ok("%s keyed by remote_addr" % short(name))
-            else:
-                r4.fail(prog.name(sk), "identity:" + short(name), "%s uses %s as the cache identity, not the session's remote_addr Arc" % (short(name), show(e, 60)), fv.loc(bi))
+        for bv in [main_fv] + [hv for hv in helper_views if hv is not main_fv]:
+            rend = Renderer(bv, depth=12)
+            for bi, t in bv.calls(re.compile(re.escape(name))):
+                n4 += 1
+                e = rend.operand(t["args"][idx], 12)
+                if _var_or_field(e, "remote_addr"):
+                    r4.ok("%s keyed by remote_addr" % short(name))
+                else:
+                    r4.fail(prog.name(sk), "identity:" + short(name), "%s uses %s as the cache identity, not the session's remote_addr Arc" % (short(name), show(e, 60)), bv.loc(bi))
     r4.floor("cache-identity sites in serve_inner", n4, 3)
